@@ -35,7 +35,12 @@ Base == [ann        |-> 0,        \* distinct annotation keys on every annotated
          svc        |-> 0,        \* services (one function each)
          exc        |-> 0,        \* exceptions; every function throws all of them
          defs       |-> 1,        \* plain structs
-         kinds      |-> "struct"] \* "all": additionally one enum, one typedef, one union
+         kinds      |-> "struct", \* "all": additionally one enum, one typedef, one union
+         \* per-definition member counts: anything a generator may keep in a map keyed by id or name
+         req        |-> 0,        \* required fields of one extra struct R (0: no such struct)
+         wide       |-> 0,        \* optional fields of one extra struct W (0: no such struct)
+         evals      |-> 0,        \* values of one extra enum BigE (0: no such enum)
+         funcs      |-> 0]        \* functions of one extra service Wide (0: no such service)
 
 Fields == DOMAIN Base
 
@@ -49,13 +54,20 @@ DimMapC == { [Base EXCEPT !.mapConst = 1], [Base EXCEPT !.mapConst = 2], [Base E
 DimMapD == { [Base EXCEPT !.mapDefault = 2], [Base EXCEPT !.mapDefault = Many] }
 DimInc  == { [Base EXCEPT !.inc = 1], [Base EXCEPT !.inc = 2],
              [Base EXCEPT !.inc = 2, !.diamond = TRUE], [Base EXCEPT !.inc = Many] }
-DimRpc  == { [Base EXCEPT !.svc = 1], [Base EXCEPT !.svc = 1, !.exc = 2], [Base EXCEPT !.svc = 3, !.exc = 3] }
+DimRpc  == { [Base EXCEPT !.svc = 1], [Base EXCEPT !.svc = 1, !.exc = 2], [Base EXCEPT !.svc = 3, !.exc = 3],
+             [Base EXCEPT !.svc = 1, !.exc = Many] }
 DimDefs == { [Base EXCEPT !.defs = 3], [Base EXCEPT !.defs = Many] }
 DimKind == { [Base EXCEPT !.kinds = "all"] }
-Dims == <<DimAnn, DimNs, DimMapC, DimMapD, DimInc, DimRpc, DimDefs, DimKind>>
+\* 12 and 20 required fields: a partially filled second / third byte of fastgo's required-field bitset
+DimReq  == { [Base EXCEPT !.req = 12], [Base EXCEPT !.req = 20] }
+DimWide == { [Base EXCEPT !.wide = 20] }
+DimEnum == { [Base EXCEPT !.evals = 12] }
+DimFunc == { [Base EXCEPT !.funcs = 12] }
+Dims == <<DimAnn, DimNs, DimMapC, DimMapD, DimInc, DimRpc, DimDefs, DimKind, DimReq, DimWide, DimEnum, DimFunc>>
 
 Full == [ann |-> Many, annAt |-> "both", ns |-> Many, mapConst |-> Many, mapDefault |-> Many, inc |-> Many,
-         diamond |-> TRUE, svc |-> 3, exc |-> 3, defs |-> Many, kinds |-> "all"]
+         diamond |-> TRUE, svc |-> 3, exc |-> 3, defs |-> Many, kinds |-> "all",
+         req |-> 20, wide |-> 20, evals |-> 12, funcs |-> 12]
 
 \* two deviations of different dimensions combined ("all" kinds wins: it is what the annotated nodes need)
 Merge(a, b) == [f \in Fields |-> IF a[f] # Base[f] THEN a[f] ELSE b[f]]
@@ -68,7 +80,9 @@ Weight2 == UNION {{Merge(a, b) : a \in Dims[ij[1]], b \in Dims[ij[2]]} : ij \in 
 Strong == {[Base EXCEPT !.ann = Many, !.annAt = "both", !.kinds = "all"], [Base EXCEPT !.ns = Many],
            [Base EXCEPT !.mapConst = Many], [Base EXCEPT !.mapDefault = Many], [Base EXCEPT !.inc = Many],
            [Base EXCEPT !.inc = 2, !.diamond = TRUE], [Base EXCEPT !.svc = 3, !.exc = 3], [Base EXCEPT !.defs = Many],
-           [Base EXCEPT !.kinds = "all"]}
+           [Base EXCEPT !.kinds = "all"], [Base EXCEPT !.req = 12], [Base EXCEPT !.req = 20],
+           [Base EXCEPT !.wide = 20], [Base EXCEPT !.evals = 12], [Base EXCEPT !.funcs = 12],
+           [Base EXCEPT !.svc = 1, !.exc = Many]}
 
 \* the program universes: W = 0: Base, the strongest single deviations, Full; W = 1: Base, every single deviation, Full;
 \* W = 2: also every pair of deviations
@@ -80,12 +94,18 @@ Weight(q) == IF q = Full THEN 99
 
 \* named definitions of the main file (keys of the semantic name table)
 Names(q) == q.defs + (IF q.kinds = "all" THEN 3 ELSE 0) + q.exc + q.svc + (IF q.mapConst > 0 THEN 1 ELSE 0)
+            + (IF q.req > 0 THEN 1 ELSE 0) + (IF q.wide > 0 THEN 1 ELSE 0)
+            + (IF q.evals > 0 THEN 1 ELSE 0) + (IF q.funcs > 0 THEN 1 ELSE 0)
+SetMax(S) == CHOOSE x \in S : \A y \in S : y <= x
+\* the most members (fields, enum values, functions) any one definition of the main file has
+Members(q) == SetMax({2 + (IF q.mapDefault > 0 THEN 1 ELSE 0) + q.inc, q.req, q.wide, q.evals, q.funcs})
 \* IDL files that take part in a recursive generation
 IdlFiles(q) == 1 + q.inc + (IF q.diamond /\ q.inc > 0 THEN 1 ELSE 0)
 
 \* DESIGN 6 C07: the program features that reach an order-sensitive emission site
 Risky(q) == \/ q.ann >= 2         \/ q.ns >= 2        \/ q.mapConst >= 2 \/ q.mapDefault >= 2
             \/ q.inc >= 2         \/ q.svc >= 2       \/ q.exc >= 2      \/ Names(q) >= 2
+            \/ q.req >= 2         \/ q.wide >= 2      \/ q.evals >= 2    \/ q.funcs >= 2
 
 -----------------------------------------------------------------------------
 (* Configurations: [name, backend, opts, plugin, recursive] *)
@@ -140,13 +160,13 @@ ConfigsPairs ==
 
 Sites == {"refl.ann.decl", "refl.ann.member", "refl.namespaces", "refl.includes", "refl.constmap",
           "refl.defaultmap", "go.imports", "go.stdlibs", "go.constmap", "go.defaultmap", "go.throws",
-          "go.tags", "go.typemeta", "fastgo.imports", "fastgo.fields", "fm.replacer",
-          "plugin.names", "plugin.ast", "plugin.outpath", "persist.jobs", "dfs.includes"}
+          "go.tags", "go.typemeta", "go.members", "fastgo.imports", "fastgo.fields", "fastgo.required",
+          "fm.replacer", "plugin.names", "plugin.ast", "plugin.outpath", "persist.jobs", "dfs.includes"}
 
 \* a fixed order in which a run passes the sites (the generator is sequential up to the persist stage)
 SiteSeq == <<"dfs.includes", "go.stdlibs", "go.imports", "go.constmap", "go.defaultmap", "go.throws", "go.tags",
-             "go.typemeta", "refl.includes", "refl.namespaces", "refl.constmap", "refl.defaultmap",
-             "refl.ann.decl", "refl.ann.member", "fastgo.fields", "fastgo.imports", "fm.replacer",
+             "go.typemeta", "go.members", "refl.includes", "refl.namespaces", "refl.constmap", "refl.defaultmap",
+             "refl.ann.decl", "refl.ann.member", "fastgo.fields", "fastgo.required", "fastgo.imports", "fm.replacer",
              "plugin.ast", "plugin.names", "plugin.outpath", "persist.jobs">>
 
 \* the output object a site contributes to
@@ -155,8 +175,8 @@ ObjectOf(s) ==
   CASE s \in {"refl.ann.decl", "refl.ann.member", "refl.namespaces", "refl.includes", "refl.constmap",
               "refl.defaultmap"} -> "refl"
     [] s \in {"go.imports", "go.stdlibs", "go.constmap", "go.defaultmap", "go.throws", "go.tags",
-              "go.typemeta", "fm.replacer"} -> "code"
-    [] s \in {"fastgo.imports", "fastgo.fields"} -> "fast"
+              "go.typemeta", "go.members", "fm.replacer"} -> "code"
+    [] s \in {"fastgo.imports", "fastgo.fields", "fastgo.required"} -> "fast"
     [] s \in {"plugin.names", "plugin.ast", "plugin.outpath"} -> "stdin"
     [] OTHER -> "tree"
 
@@ -185,7 +205,9 @@ KeyCount(s, q, c) ==
     [] s = "go.tags"         -> IF q.annAt \in {"member", "both"} THEN q.ann ELSE 0
     [] s = "go.typemeta"     -> 2                  \* the fields of a struct's type meta
     [] s = "fastgo.imports"  -> 2 + q.inc
-    [] s = "fastgo.fields"   -> 2 + q.inc
+    [] s = "fastgo.fields"   -> Members(q)
+    [] s = "fastgo.required" -> q.req            \* the required-field bitset of a struct (bitsetCodeGen.m: field -> bit)
+    [] s = "go.members"      -> Members(q)       \* fields / enum values / functions of one definition
     [] s = "fm.replacer"     -> 3 + Names(q)       \* bof, imports, eof and one or more per definition
     [] s = "plugin.names"    -> Names(q)
     [] s = "plugin.ast"      -> Names(q)
@@ -219,6 +241,7 @@ PinnedKind(s, c) ==
     [] s = "go.throws"      -> "sorted"         \* ServiceThrows: map, then sort.Slice
     [] s = "fastgo.imports" -> IF Has(c, "no_fmt") THEN "map" ELSE "formatted"   \* codewriter.Imports
     [] s = "fastgo.fields"  -> "sorted"         \* getSortedFields
+    [] s = "fastgo.required" -> "commutative"   \* bitsetCodeGen: the map is only inverted; checks are emitted by bit index
     [] s = "fm.replacer"    -> "commutative"    \* strings.NewReplacer over keys none of which is a prefix of another (Replacer.tla)
     [] s = "plugin.names"   -> "map"            \* parser.Thrift.FastAppend ranges over Name2Category
     [] s = "persist.jobs"   -> "commutative"    \* concurrent writes of distinct paths (spec/Persist, C19)
